@@ -213,8 +213,11 @@ class Ctx:
             "wall_s": round(wall, 2),
             "violations": len(self.violations),
         }
-        os.makedirs(os.path.join(VERIF, "evidence"), exist_ok=True)
-        with open(os.path.join(VERIF, "evidence", "%s.json" % self.prop), "w") as f:
+        # runs against a scratch tree (VERIF_REPO set: mutation testing) must not overwrite the
+        # evidence of /repo itself
+        evdir = os.path.join(VERIF, "evidence") if REPO == "/repo" else os.path.join(CACHE, "evidence-scratch")
+        os.makedirs(evdir, exist_ok=True)
+        with open(os.path.join(evdir, "%s.json" % self.prop), "w") as f:
             json.dump(ev, f, indent=1, default=str)
         for key, what in self.known_hits:
             print("KNOWN-FINDING: property=%s %s [key=%s]" % (self.prop, what, key), flush=True)
